@@ -195,6 +195,7 @@ def _history(ctx, gd, rng, steps, edits=True):
 
 
 def run_shard(ctx):
+    gg.ALLOW_ODD = True  # node names that are not Python identifiers are node names like any other
     mon_graph.install()
     rng = ctx.rng
     # 1. exhaustive 3-node scope
